@@ -140,6 +140,8 @@ class Extract:
             return [".backoff"]
         if attr == "_save_current_cursor" and recv == "self":
             return [".saveCursor"]
+        if attr == "_forget_walk" and recv == "self":
+            return [".forgetWalk"]
         if attr is not None and attr.endswith("__increment_backoff") and recv == "self":
             return [".incrBackoff"]
         if isinstance(stmt, ast.Assign) and len(stmt.targets) == 1:
